@@ -9,7 +9,7 @@ import Sop.Driver.Util
   pg <id> <page>                           -> ok      (page of an item a transaction will add)
   txn <t> <w|r> <commit|abort> <op>...     -> ok      ops: get:k upd:k:v updf:k:src:d add:id:k:v addne:id:k:v ups:id:k:v rm:k touch:k
   step <t> <hint>...                       -> state line of transaction t after the step
-  end                                      -> final committed state, then `\t%hyp:…`: whether every step of the case met
+  end                                      -> final committed state, then `\t%hyp:good|not-good(<first failing conjunct>)+goodU|not-goodU`: whether every step of the case met
                                               C02's hypotheses (`GoodN`) and C05's install-freshness hypothesis (`InstallFreshN`)
 -/
 namespace Sop.Driver.OccProto
@@ -118,6 +118,7 @@ structure St where
   goodU : Bool := true
   good : Bool := true     -- C02's hypotheses (`Sop.C02.GoodN`: Covered, Shape, ChecksAll, BeginSound) held before every step
   n : Nat := 0            -- transactions 0 .. n-1 exist
+  bad : String := ""      -- the first conjunct of `GoodN` that failed
 
 def resetSt (hdr : List String) : St := { g := reset hdr }
 
@@ -129,13 +130,17 @@ def stepSt (s : St) (ws : List String) : St × String :=
     | some t =>
       let items := s.g.ids ++ ((s.g.txns t).tracked.map (·.item))
       let hint := (ws.drop 2).filterMap String.toNat?
-      ({ s with g := g', goodU := s.goodU && decide (InstallFreshN items s.g t),
-                good := s.good && decide (Sop.C02.CoveredN s.n s.g ∧ Sop.C02.ShapeN s.n s.g ∧ ChecksAll s.g ∧ Sop.C02.BeginSoundD s.g t hint) }, out)
+      let why := if !decide (Sop.C02.CoveredN s.n s.g) then "covered" else if !decide (Sop.C02.ShapeN s.n s.g) then "shape"
+        else if !decide (ChecksAll s.g) then "checks" else if !decide (Sop.C02.BeginSoundD s.g t hint) then "beginsound" else ""
+      ({ s with g := g', goodU := s.goodU && decide (InstallFreshN items s.g t), good := s.good && why.isEmpty,
+                bad := if s.bad.isEmpty then why else s.bad }, out)
     | none => ({ s with g := g' }, out)
   | "txn" :: t :: _ => ({ s with g := g', n := max s.n ((t.toNat?.getD 0) + 1) }, out)
   | ["end"] =>
-    let good := s.good && decide (Sop.C02.CoveredN s.n s.g ∧ Sop.C02.ShapeN s.n s.g ∧ ChecksAll s.g)
-    ({ s with g := g' }, out ++ (if good then (if s.goodU then "\t%hyp:good+goodU" else "\t%hyp:good-only") else (if s.goodU then "\t%hyp:goodU-only" else "\t%hyp:neither")))
+    let why := if !s.bad.isEmpty then s.bad else if !decide (Sop.C02.CoveredN s.n s.g) then "covered" else if !decide (Sop.C02.ShapeN s.n s.g) then "shape"
+      else if !decide (ChecksAll s.g) then "checks" else ""
+    let u := if s.goodU then "goodU" else "not-goodU"
+    ({ s with g := g' }, out ++ (if why.isEmpty then s!"\t%hyp:good+{u}" else s!"\t%hyp:not-good({why})+{u}"))
   | _ => ({ s with g := g' }, out)
 
 def run : IO Unit := runLoop resetSt stepSt
